@@ -640,6 +640,59 @@ def seed_case(draw, **kw):
     return draw(medoid_case(entries=("kmedoids",), drives=("seed",), **kw))
 
 
+# --------------------------------------------------------------------------
+# tens of thousands of frames (seeded): more frames than any internal block
+
+@st.composite
+def many_frames_case(draw):
+    return {"n": draw(st.sampled_from([32767, 32768, 32769, 39768, 70001])), "d": draw(st.integers(1, 3)),
+            "k": draw(st.integers(2, 5)), "seed": draw(st.integers(0, 2 ** 31 - 1)),
+            "metric": draw(st.sampled_from(["euclidean", "manhattan", "chebyshev"])),
+            "entry": draw(st.sampled_from(["kmedoids", "kmedoids", "hybrid"])), "sweeps": draw(st.integers(1, 2)),
+            "tail": draw(st.sampled_from(["same", "far"]))}
+
+
+def run_many_frames(case):
+    rng = np.random.RandomState(case["seed"])            # seed drawn by Hypothesis
+    n, d, k = case["n"], case["d"], case["k"]
+    X = rng.normal(size=(n, d)) + rng.randint(0, 3, size=(n, 1)) * 4.0
+    if case["tail"] == "far":
+        # the last frames form a group of their own, far from everything else: losing them from a distance
+        # computation cannot go unnoticed
+        t = rng.randint(100, 5000)
+        X[-t:] += 40.0
+    name = case["metric"]
+    M = rc.library_metric(name)
+
+    def cost_of(centers_idx):
+        D = np.stack([rc.ref_dist(name, X, X[i]) for i in centers_idx], axis=1)
+        lab = D.argmin(axis=1)
+        dist = D[np.arange(n), lab]
+        return float(np.mean(dist * dist)), lab, dist
+    if case["entry"] == "hybrid":
+        base = kc_mod.kcenters(X, M, n_clusters=k)
+        c0, _, _ = cost_of([int(i) for i in base.center_indices])
+        r = hy_mod.hybrid(X, M, n_clusters=k, n_iters=case["sweeps"], random_state=case["seed"] % (2 ** 31))
+    else:
+        start = [int(i) for i in rng.choice(n, size=k, replace=False)]
+        c0, lab0, dist0 = cost_of(start)
+        r = km_mod.kmedoids(X, M, cluster_center_inds=list(start), assignments=lab0.astype(np.int64), distances=dist0.copy(),
+                            n_iters=case["sweeps"], random_state=case["seed"] % (2 ** 31))
+    idx = [int(i) for i in np.asarray(r.center_indices).ravel()]
+    require(len(idx) == k and len(set(idx)) == k, "the number of clusters was not kept", got=len(set(idx)), want=k)
+    c1, lab1, dist1 = cost_of(idx)
+    require(c1 <= c0 * (1 + 1e-9) + 1e-12, "the sweep(s) left the mean squared distance larger than before (%d frames)" % n,
+            before=c0, after=c1, entry=case["entry"])
+    got = np.asarray(r.distances, dtype=float)
+    require(np.allclose(got, rc.ref_dist_matrix(name, X, [X[i] for i in idx])[np.arange(n), np.asarray(r.assignments)],
+                        rtol=1e-9, atol=1e-12), "reported distances are not the distances to the labelled centers (%d frames)" % n)
+    rep = float(np.mean(got * got))
+    require(abs(rep - c1) <= 1e-9 * max(c1, 1e-300) + 1e-12, "reported cost differs from the true cost of the returned centers",
+            reported=rep, true=c1)
+    return Info(n > 32768 and c1 < c0, ["many_n=%d" % n, "many_entry=" + case["entry"], "many_metric=" + name,
+                                        "improved=%s" % (c1 < c0)], key=[case[k_] for k_ in sorted(case)])
+
+
 CLAUSES = [
     Clause("sweep_cost_public", _KM_ALL_ENTRIES, run_sweep_cost_public, quick=1100, thorough=18000,
            exhaustive=exhaustive_small,
@@ -660,6 +713,8 @@ CLAUSES = [
     Clause("warm_state_guarantees", medoid_case(starts=("all",), entries=("kmedoids", "KMedoids.fit", "kmedoids")),
            run_warm_state_guarantees, quick=550, thorough=11000,
            doc="starting from a supplied consistent state (centers, labels, distances) preserves the guarantees"),
+    Clause("sweep_cost_many_frames", many_frames_case(), run_many_frames, quick=12, thorough=160,
+           doc="32767..70001 frames: cost never grows, cluster count kept, reported distances are those of the returned centers"),
     Clause("sweep_cost_large", medoid_case(max_n=200, max_d=8, min_n=30), run_sweep_cost_public, quick=0,
            thorough=2000, doc="cost history on 30..200 frames"),
     Clause("hybrid_large", hybrid_case(max_n=200, max_d=8, min_n=30), run_hybrid_not_worse, quick=0,
